@@ -290,6 +290,14 @@ def run(item, ctx, tier, seed):
             ctx.tick()
             if ok_f:
                 check_cm_object(ctx, dict(case, dtype="float64 x0.5"), cmf, [[x / 2 for x in r] for r in mF], names)
+        if i % 3 == 2:
+            # small integer dtypes with cells near the top of their range (row / column totals leave the dtype)
+            for dt_, k_ in ((np.uint8, 100), (np.int8, 60), (np.int16, 16000)):
+                ok_s, cms = guarded(ctx, "construct-small-int", dict(case, dtype=np.dtype(dt_).name, times=k_),
+                                    lambda: ConfusionMatrix(matrix=(np.array(m) * k_).astype(dt_), classes=names))
+                ctx.tick()
+                if ok_s:
+                    check_cm_object(ctx, dict(case, dtype=np.dtype(dt_).name, times=k_), cms, [[x * k_ for x in r] for r in mF], names)
         for form, kwargs in (("nested-list", dict(matrix=m, classes=names)),
                              ("ndarray", dict(matrix=np.array(m), classes=names)),
                              ("dict", dict(matrix=as_dict)),
